@@ -17,6 +17,12 @@ from machines import common
 from machines.common import pick_prec
 from ops import catalogue
 
+# catalogue keys of functions created by _wrap_libmp_function: they document and parse prec= / dps= / rounding=
+KW_FUNCS = frozenset(['sqrt', 'cbrt', 'ln', 'atan', 'exp', 'expj', 'expjpi', 'sin', 'cos', 'tan', 'sinh', 'cosh', 'tanh', 'asin', 'acos',
+                      'asinh', 'acosh', 'atanh', 'sinpi', 'cospi', 'floor', 'ceil', 'nint', 'frac', 'fib', 'gamma', 'rgamma',
+                      'loggamma', 'factorial', 'ei', 'e1', 'ellipk', 'gamma_big', 'gamma_int', 'factorial_int', 'fib_int'])
+# (digamma / harmonic are libmp-wrapped too but are known findings for their width already)
+
 class Machine(object):
     PROP = 'C10'
     DEFAULT_SEED = 1001
@@ -176,7 +182,7 @@ class _Gen(object):
         self.fams = r.choice(['ABL', 'ABCL', 'ABCDEFGHL', 'CDEFGH', 'ABCDEFGHL'])
         self.nsteps = r.randint(8, 36)
         self.ref_rate = r.choice([0.0, 0.2, 0.5])
-        self.kw_rate = r.choice([0.0, 0.3])
+        self.kw_rate = r.choice([0.0, 0.3, 0.6])
         self.cfg = {'pattern': self.pattern, 'families': self.fams, 'budget': m.BUDGET[tier], 'ref_rate': self.ref_rate}
         self.cfgw = {'maxwidth': r.choice([None, None, 400, 64])}
         self.calls = []
@@ -226,6 +232,17 @@ class _Gen(object):
                     st['kwargs'].pop(k, None)
                 if not st['kwargs']:
                     del st['kwargs']
+            # keyword precision / rounding on the elementary functions (every branch must honour them:
+            # real result, complex argument, real argument promoted to a complex result, special values)
+            if e.key in KW_FUNCS and r.random() < self.kw_rate:
+                kw = st.setdefault('kwargs', {})
+                c = r.random()
+                if c < 0.6:
+                    kw['prec'] = {'t': 'int', 'v': r.choice([1, 2, 5, 20, 24, 30, 53, 64, r.randint(1, 300)])}
+                elif c < 0.8:
+                    kw['dps'] = {'t': 'int', 'v': r.randint(1, 60)}
+                if r.random() < 0.4:
+                    kw['rounding'] = {'t': 'str', 'v': r.choice('nfcdu')}
             if 'kwargs' in st and 'prec' in st['kwargs'] and 'dps' in st['kwargs']:
                 del st['kwargs']['dps']      # which of the two wins is not specified by the property
             # operands that are results of earlier steps
